@@ -1,58 +1,181 @@
 //! The simulator's driver: scenario generation, execution, oracles, minimisation, replay, evidence.
 
+pub mod campaign;
 pub mod exec;
+pub mod gen;
+pub mod guard;
+pub mod minimise;
 pub mod model;
+pub mod oracle;
+pub mod stats;
 
 use exec::RunOnce;
+use std::path::PathBuf;
+use std::time::Duration;
+
+fn arg_val(args: &[String], name: &str) -> Option<String> {
+    args.iter().position(|a| a == name).and_then(|i| args.get(i + 1)).cloned()
+}
+
+fn quiet_stderr() {
+    if std::env::var_os("VERIF_DEBUG").is_some() {
+        return;
+    }
+    // shuttle prints a banner on every task failure; violations are reported on stdout
+    unsafe {
+        let p = std::ffi::CString::new("/dev/null").unwrap();
+        let fd = libc::open(p.as_ptr(), libc::O_WRONLY);
+        if fd >= 0 {
+            libc::dup2(fd, 2);
+            libc::close(fd);
+        }
+    }
+}
 
 pub fn main(run_once: RunOnce) -> i32 {
     let args: Vec<String> = std::env::args().collect();
     exec::global_init(run_once);
     match args.get(1).map(|s| s.as_str()) {
-        Some("smoke") => smoke(),
+        Some("check") => {
+            let Some(property) = args.get(2).cloned() else {
+                println!("usage: simcli check <C06|C07|C08|C17> [--tier quick|thorough] [--seed N] [--threads N] [--runs N]");
+                return 2;
+            };
+            if !["C06", "C07", "C08", "C17"].contains(&property.as_str()) {
+                println!("HARNESS-ERROR unknown property {property}");
+                return 2;
+            }
+            let tier = match arg_val(&args, "--tier").as_deref() {
+                Some("thorough") => oracle::Tier::Thorough,
+                _ => oracle::Tier::Quick,
+            };
+            let seed: u64 = arg_val(&args, "--seed").and_then(|s| s.parse().ok()).unwrap_or(1);
+            let threads: usize = arg_val(&args, "--threads").and_then(|s| s.parse().ok()).unwrap_or(16);
+            let default_runs = default_runs(&property, tier);
+            let runs: u64 = arg_val(&args, "--runs").and_then(|s| s.parse().ok()).unwrap_or(default_runs);
+            let max_wall = Duration::from_secs(arg_val(&args, "--max-wall-s").and_then(|s| s.parse().ok()).unwrap_or(match tier {
+                oracle::Tier::Quick => 240,
+                oracle::Tier::Thorough => 2400,
+            }));
+            let verif = PathBuf::from(arg_val(&args, "--verif-dir").unwrap_or_else(|| "/verif".into()));
+            let a = campaign::CheckArgs {
+                property: property.clone(),
+                tier,
+                seed,
+                threads,
+                runs,
+                max_wall,
+                evidence: verif.join("evidence").join(format!("{property}.json")),
+                known: verif.join("known_findings.json"),
+                replay_dir: verif.join("replays"),
+                selftest: arg_val(&args, "--selftest").and_then(|s| s.parse().ok()).unwrap_or(match tier {
+                    oracle::Tier::Quick => 200,
+                    oracle::Tier::Thorough => 2000,
+                }),
+                minimise_budget: Duration::from_secs(match tier {
+                    oracle::Tier::Quick => 30,
+                    oracle::Tier::Thorough => 120,
+                }),
+            };
+            quiet_stderr();
+            campaign::check(&a)
+        }
+        Some("replay") => {
+            let Some(p) = args.get(2) else {
+                println!("usage: simcli replay <file>");
+                return 2;
+            };
+            quiet_stderr();
+            campaign::replay_cmd(&PathBuf::from(p))
+        }
+        Some("catalog") => {
+            quiet_stderr();
+            catalog()
+        }
+        Some("show") => {
+            // print the generated case of one run index (debugging aid)
+            let property = args.get(2).cloned().unwrap_or_default();
+            let i: u64 = args.get(3).and_then(|s| s.parse().ok()).unwrap_or(0);
+            let seed: u64 = arg_val(&args, "--seed").and_then(|s| s.parse().ok()).unwrap_or(1);
+            let case = oracle::gen_case(&property, campaign::run_seed(seed, &property, i), oracle::Tier::Quick);
+            println!("{}", serde_json::to_string_pretty(&case).unwrap());
+            0
+        }
         _ => {
-            eprintln!("usage: simcli smoke");
+            println!("usage: simcli check|replay|catalog|show ...");
             2
         }
     }
 }
 
-fn smoke() -> i32 {
+fn default_runs(property: &str, tier: oracle::Tier) -> u64 {
+    match (property, tier) {
+        ("C06", oracle::Tier::Quick) => 10_000,
+        ("C06", oracle::Tier::Thorough) => 150_000,
+        ("C07", oracle::Tier::Quick) => 30_000,
+        ("C07", oracle::Tier::Thorough) => 500_000,
+        ("C08", oracle::Tier::Quick) => 20_000,
+        ("C08", oracle::Tier::Thorough) => 400_000,
+        ("C17", oracle::Tier::Quick) => 10_000,
+        ("C17", oracle::Tier::Thorough) => 150_000,
+        _ => 1000,
+    }
+}
+
+/// Run every catalogue entry (C07 edges, C08 poisons) alone, per language and mode, under the
+/// baseline schedule, and print what the tool does with it.
+fn catalog() -> i32 {
     use crate::ctx::Knobs;
     use crate::sched::SchedSpec;
     use model::*;
-    let tree: Tree = vec![
-        SrcFile::text("a/src/lib.rs", vec!["#[typeshare]\npub struct A { pub x: u32 }\n".into()]),
-        SrcFile::text("a/src/b.rs", vec!["#[typeshare]\npub struct B { pub a: Vec<A> }\n#[typeshare]\npub const X: u32 = 1;\n".into()]),
-        SrcFile::text("a/src/c.rs", vec!["#[typeshare]\npub const Y: u32 = 2;\n".into()]),
-    ];
-    let base = std::path::PathBuf::from("/dev/shm/tsverif-smoke");
-    let mut sc = exec::Scratch::new(&base, "r0");
-    let mut outs = std::collections::BTreeSet::new();
-    for seed in 0..200u64 {
-        let inv = Inv {
-            version: 0,
-            lang: "typescript".into(),
-            mode: Mode::File,
-            extra: vec![],
-            config: String::new(),
-            knobs: Knobs { workers: 1 + (seed % 4) as usize, ..Knobs::shipped() },
-            hash_seed: seed,
-            sched: SchedSpec::Random { seed },
-            faults: vec![],
-            fresh_out: true,
-            role: String::new(),
-        };
-        let out = sc.out();
-        let o = exec::run_invocation(&mut sc, &tree, &inv, &out);
-        if seed < 3 {
-            println!("{:?} err={:?} diags={:?} steps={} arrival={:?} hash_calls={} panics={:?}", o.class, o.err_text, o.diags, o.steps, o.arrival, o.hash_calls, o.panics);
-            for (k, v) in &o.after {
-                println!("--- {k}\n{}", String::from_utf8_lossy(&v.bytes));
+    let base = campaign::scratch_base();
+    let mut sc = exec::Scratch::new(&base, "catalog");
+    let helper = SrcFile::text("alpha/src/lib.rs", vec!["#[typeshare]\npub struct Helper { pub x: u32 }\n".into()]);
+    let mut entries: Vec<(String, SrcFile)> = vec![];
+    for e in gen::EDGES {
+        entries.push((
+            format!("edge:{}", e.id),
+            SrcFile { path: "alpha/src/e.rs".into(), kind: e.kind.clone(), chunks: vec![e.chunk.to_string()], raw_hex: e.raw_hex.to_string() },
+        ));
+    }
+    for p in gen::POISONS {
+        entries.push((format!("poison:{}", p.id), SrcFile::text("alpha/src/e.rs", vec![p.poison.to_string()])));
+        if let Some(s) = p.skipped {
+            entries.push((format!("skipped:{}", p.id), SrcFile::text("alpha/src/e.rs", vec![s.to_string()])));
+        }
+    }
+    for (name, f) in entries {
+        let tree = vec![helper.clone(), f];
+        let mut line = format!("{name:42}");
+        for lang in LANGS {
+            for mode in [Mode::File, Mode::Folder] {
+                let inv = Inv {
+                    version: 0,
+                    lang: lang.to_string(),
+                    mode: mode.clone(),
+                    extra: vec![],
+                    config: "[go]\npackage = \"p\"\n[scala]\npackage = \"p\"\n[kotlin]\npackage = \"p\"\n".into(),
+                    knobs: Knobs { workers: 1, ..Knobs::shipped() },
+                    hash_seed: 0,
+                    sched: SchedSpec::Sticky,
+                    faults: vec![],
+                    fresh_out: true,
+                    role: String::new(),
+                };
+                let out = sc.out();
+                let o = exec::run_invocation(&mut sc, &tree, &inv, &out);
+                let c = match o.class {
+                    exec::ResultClass::Ok => "ok".to_string(),
+                    exec::ResultClass::Err => "ERR".to_string(),
+                    exec::ResultClass::Panic => format!("PANIC@{}", o.panic_site()),
+                    other => format!("{other:?}"),
+                };
+                line.push_str(&format!(" {}{}={c}", &lang[..2], if mode == Mode::File { "1" } else { "N" }));
             }
         }
-        outs.insert(o.out_bytes());
+        println!("{line}");
     }
-    println!("distinct outputs: {}", outs.len());
+    drop(sc);
+    let _ = std::fs::remove_dir_all(&base);
     0
 }
